@@ -25,48 +25,62 @@ def rules(rep, m):
     found = 0
     for f in rnd:
         cx = FuncCtx(m, f)
-        for lp in [x for x in walk(f.body) if x["kind"] == "ForStmt"]:
-            ch = kids(lp)
-            if not any(y["kind"] == "BreakStmt" for y in walk(ch[4])):
+        for lp in [x for x in walk(f.body) if x["kind"] in ("ForStmt", "WhileStmt")]:
+            body = kids(lp)[-1]
+            if not any(y["kind"] == "BreakStmt" for y in walk(body)):
                 continue
-            # counter declared outside the loop (assigned in init)
-            ini = strip(ch[0], casts=True)
-            if not (ini["kind"] == "BinaryOperator" and ini.get("opcode") == "="):
+            ivars, guard = inv.induction_vars(cx, f, lp)
+            if guard is None or ivars[guard[0]][1] != 1 or guard[1] not in ("<", "<=", "!="):
                 continue
-            ctr = render(kids(ini)[0])
-            cond = strip(ch[2], casts=True)
-            if not (cond["kind"] == "BinaryOperator" and cond.get("opcode") in ("<", "<=") and render(kids(cond)[0]) == ctr):
+            ctr, op, bound = guard
+            entry = ivars[ctr][0]
+            # the counter (index or walking pointer) must be declared outside the loop and used after it
+            declared_in_loop = any(d["kind"] == "VarDecl" and d.get("name") == ctr for d in walk(kids(lp)[0])) if lp["kind"] == "ForStmt" else False
+            if declared_in_loop:
                 continue
-            bound = cx.canon(kids(cond)[1])
-            li = inv.stmt_index_containing(f, lp)
-            after = kids(f.body)[li + 1:]
-            used = [s for s in after for y in walk(s) if y["kind"] == "DeclRefExpr" and y["ref"]["name"] == ctr]
+            chain = inv.enclosing_chain(f, lp)
+            parent = chain[-1] if chain else f.body
+            sibs = kids(parent)
+            li = next((i_ for i_, s_ in enumerate(sibs) if s_ is lp), None)
+            after = sibs[li + 1:] if li is not None else []
+            used = [s_ for s_ in after for y in walk(s_) if y["kind"] == "DeclRefExpr" and y["ref"]["name"] == ctr]
             if not used:
                 continue
             found += 1
             sizep = None
-            for p in f.params:
-                if "unsigned" in (p.get("type") or "") or "int" in (p.get("type") or ""):
-                    sizep = p["name"]
+            for p_ in f.params:
+                if "unsigned" in (p_.get("type") or "") or "int" in (p_.get("type") or ""):
+                    sizep = p_["name"]
                     break
-            r1.instance("%s: search loop on '%s' while %s %s; counter used after the loop" % (f.name, ctr, cond["opcode"], bound))
+            # how far the counter is from its start when the loop is exhausted
+            if entry == "0":
+                exhausted = bound
+            else:
+                mm = re.fullmatch(r"\(%s \+ (.+)\)" % re.escape(entry), bound)
+                exhausted = mm.group(1) if mm else None
+            if op == "<=" and exhausted is not None:
+                exhausted = "(%s + 1)" % exhausted
+            r1.instance("%s: search loop on '%s' from %s while %s %s; counter used after the loop, %s steps when exhausted" %
+                        (f.name, ctr, entry, op, bound, exhausted))
             rep.sample({"rule": "R-C16-1", "function": f.name, "counter": ctr, "bound": bound, "size_param": sizep})
-            safe = cond["opcode"] == "<" and sizep is not None and bound == "(%s - 1)" % sizep
+            safe = sizep is not None and exhausted == "(%s - 1)" % sizep
             clamp = False
-            for s in after:
-                if s["kind"] == "IfStmt":
-                    c = cx.canon(kids(s)[0])
-                    if re.fullmatch(r"\(%s (==|>=) %s\)" % (ctr, sizep or "?"), c) and \
+            for s_ in after:
+                if s_["kind"] == "IfStmt":
+                    c = cx.canon(kids(s_)[0])
+                    if re.fullmatch(r"\(%s (==|>=) %s\)" % (re.escape(ctr), sizep or "?"), c) and \
                             any(y["kind"] == "BinaryOperator" and y.get("opcode") == "=" and render(kids(y)[0]) == ctr
-                                for y in walk(kids(s)[1])):
+                                for y in walk(kids(s_)[1])):
                         clamp = True
             if safe or clamp:
                 r1.ok()
+            elif exhausted is None:
+                raise AnalysisBroken("%s: search loop on '%s' while %s %s not understood" % (f.name, ctr, op, bound))
             else:
                 rep.finding(r1, f.name, "index:fallthrough", "the search loop in %s runs while %s %s %s and its counter is used "
                             "afterwards: when no element matches (the probabilities are only required to sum to 1 within a "
-                            "tolerance) the counter equals the bound, one past the last valid index" % (f.name, ctr, cond["opcode"], bound),
-                            where=m.rel(loc(lp)))
+                            "tolerance) the counter is %s steps from its start, one past the last valid index" %
+                            (f.name, ctr, op, bound, exhausted), where=m.rel(loc(lp)))
                 r1.fail()
     if found == 0:
         raise AnalysisBroken("no search loop with an escaping counter found in the samplers (anchor vanished)")
@@ -181,7 +195,7 @@ def rules(rep, m):
     # R-C16-5 ------------------------------------------------------------
     r5 = rep.rule("R-C16-5", "tail by shifting: where a sampler accumulates an offset across retry rounds (the exponential "
                   "ziggurat restarts beyond the tail start, using memorylessness), every value returned from inside the retry "
-                  "loop adds that offset - a return without it folds tail samples back into the body", floor=3)
+                  "loop adds that offset - a return without it folds tail samples back into the body", floor=2)
     from ..astutil import float_value
     for f in rnd:
         offs = {}
